@@ -1,1 +1,42 @@
 //! Environment models (DESIGN.md §2.2).
+
+use mmtk::util::metadata::side_metadata::{verif_set_side_metadata_base, SideMetadataSpec};
+use mmtk::util::Address;
+
+/// E1: install the (write-once) side-metadata base address through the verification hook.
+pub fn set_side_base(base: usize) {
+    verif_set_side_metadata_base(unsafe { Address::from_usize(base) }, 0);
+}
+
+/// A metadata window: real bytes standing for the slice of a side-metadata table that covers the
+/// data range `[data_base, data_base + N << log_data_meta_ratio)`.
+#[repr(C, align(64))]
+pub struct Win<const N: usize>(pub [u8; N]);
+
+impl<const N: usize> Win<N> {
+    pub fn addr(&mut self) -> usize {
+        self.0.as_mut_ptr() as usize
+    }
+    /// Choose the base so that `address_to_meta_address(spec, data_base)` is the window start.
+    /// `data_base` must be aligned so that `data_base >> ratio` is exact.
+    pub fn install(&mut self, spec: &SideMetadataSpec, data_base: usize) {
+        let ratio = 3 + spec.log_bytes_in_region as isize - spec.log_num_of_bits as isize;
+        let rel = if ratio >= 0 { data_base >> ratio } else { data_base << (-ratio) };
+        set_side_base(self.addr() - spec.offset - rel);
+    }
+}
+
+pub fn spec(offset: usize, log_num_of_bits: usize, log_bytes_in_region: usize) -> SideMetadataSpec {
+    SideMetadataSpec {
+        name: "verif",
+        is_global: true,
+        offset,
+        log_num_of_bits,
+        log_bytes_in_region,
+    }
+}
+
+/// E8: formatting on error paths is not observed; `format!` returns an empty string.
+pub fn stub_format(_args: core::fmt::Arguments<'_>) -> String {
+    String::new()
+}
